@@ -792,11 +792,49 @@ func c03Case(r *Rng) (Sx, string, bool) {
 	if metaMode {
 		mo = c03GenPred(r, srcPaths)
 	}
+	// ReceiveOpt.Filter: rejects a few subtrees and / or shifts the ids (an id-mapping filter)
+	fltSx := L()
+	var rej []string
+	idShift := false
+	if r.Chance(22) {
+		var destFlat []c03Flat
+		c03Walk(dest, "", &destFlat)
+		pool := append([]string{}, srcPaths...)
+		for _, f := range destFlat {
+			pool = append(pool, f.path)
+		}
+		if len(pool) > 0 && r.Chance(70) {
+			for i := 1 + r.Intn(2); i > 0; i-- {
+				rej = append(rej, Pick(r, pool))
+			}
+		}
+		var ua, ga uint64
+		if r.Chance(50) {
+			ua, ga = Pick(r, []uint64{0, 100000}), Pick(r, []uint64{100000, 7})
+			idShift = true
+		}
+		var rs []Sx
+		for _, q := range rej {
+			rs = append(rs, S(q))
+		}
+		fltSx = L(L(rs...), N(ua), N(ga))
+	}
+	rejected := func(p string) bool {
+		for _, q := range rej {
+			if p == q || strings.HasPrefix(p, q+"/") {
+				return true
+			}
+		}
+		return false
+	}
 	items := c03Items(src, func(p string, same bool) bool {
 		if metaMode && (p == c03ListingName || !mo.ok(p)) {
 			return false
 		}
-		return merge || !same
+		if rejected(p) {
+			return false
+		}
+		return merge || !same || idShift
 	})
 	if outsideHL != "" && r.Chance(70) { // the stream agrees with the second name of /out/f ...
 		st := &types.Stat{Path: outsideHL, Mode: 0644, Size: 3, ModTime: int64(1e18) + 11}
@@ -804,7 +842,8 @@ func c03Case(r *Rng) (Sx, string, bool) {
 		sort.Slice(items, func(i, j int) bool { return fsutilCompare(items[i].st.Path, items[j].st.Path) < 0 })
 	}
 	linkThrough := false
-	if metaMode && r.Chance(18) {
+	fltThrough := !metaMode && len(rej) > 0 && r.Chance(30) // the same shape with a rejecting Filter instead of the selector
+	if (metaMode && r.Chance(18)) || fltThrough {
 		// a name that the destination holds as a symlink to a directory outside is announced as a
 		// directory with a child the outside directory really has, both only recorded; then a
 		// hard link to that child which is transferred
@@ -839,11 +878,17 @@ func c03Case(r *Rng) (Sx, string, bool) {
 				c03Item{st: &types.Stat{Path: hl, Mode: 0644, ModTime: c03Mtime(r), Linkname: cd.name + "/" + cd.child}})
 			sort.Slice(keep, func(i, j int) bool { return fsutilCompare(keep[i].st.Path, keep[j].st.Path) < 0 })
 			items = keep
-			mo.set = true
-			mo.force(cd.name, false)
-			mo.force(cd.name+"/"+cd.child, false)
-			mo.force(hl, true)
-			merge = r.Chance(80)
+			if fltThrough {
+				rej = []string{cd.name}
+				fltSx = L(L(S(cd.name)), fltSx.L[1], fltSx.L[2])
+				merge = r.Chance(50)
+			} else {
+				mo.set = true
+				mo.force(cd.name, false)
+				mo.force(cd.name+"/"+cd.child, false)
+				mo.force(hl, true)
+				merge = r.Chance(80)
+			}
 			linkThrough = true
 		}
 	}
@@ -905,7 +950,10 @@ func c03Case(r *Rng) (Sx, string, bool) {
 			outLinks++
 		}
 	}
-	in := L(c03SetupOps(dest, outsideHL), S(Pick(r, c03DestStrings)), L(pk...), Bool(merge), L(mo.sx(), L()))
+	if len(fltSx.L) > 0 {
+		class = "flt-" + class
+	}
+	in := L(c03SetupOps(dest, outsideHL), S(Pick(r, c03DestStrings)), L(pk...), Bool(merge), L(mo.sx(), fltSx))
 	return in, class, outLinks >= 1 && len(pk) >= 3
 }
 
